@@ -136,7 +136,7 @@ type thrSec struct {
 type thrPath struct {
 	secs   []thrSec
 	open   bool // the last section is still held
-	sticky bool // ... and is released by a deferred unlock (at return)
+	sticky bool // an unlock has been deferred: it runs when the path returns
 	done   bool // path has returned
 }
 
@@ -356,7 +356,7 @@ func (a *thrAn) apply(fn string, ps []thrPath, evs []thrEvent, depth int) []thrP
 					mode = "R"
 				}
 				p.secs = append(p.secs, thrSec{mode: mode})
-				p.open, p.sticky = true, false
+				p.open = true
 				next = append(next, p)
 			case "unlock", "runlock":
 				want := "W"
@@ -367,7 +367,7 @@ func (a *thrAn) apply(fn string, ps []thrPath, evs []thrEvent, depth int) []thrP
 					a.fail("%s: %s without the matching lock", fn, ev.kind)
 				}
 				p = p.clone()
-				p.open, p.sticky = false, false
+				p.open = false
 				next = append(next, p)
 			case "call":
 				for _, cp := range a.paths(ev.name, depth+1) {
@@ -429,7 +429,7 @@ func (a *thrAn) stmt(fn string, ps []thrPath, s ast.Stmt, rv string, hasTable bo
 			for _, p := range ps {
 				if !p.done {
 					want := map[string]string{"Unlock": "W", "RUnlock": "R"}[m]
-					if !p.open || want == "" || p.secs[len(p.secs)-1].mode != want {
+					if !p.open || want == "" || p.secs[len(p.secs)-1].mode != want || p.sticky {
 						a.fail("%s: deferred %s without the matching lock", fn, m)
 					}
 					p = p.clone()
@@ -520,6 +520,9 @@ func (a *thrAn) paths(fn string, depth int) []thrPath {
 	for _, p := range ps {
 		if p.open && !p.sticky {
 			a.fail("%s: a path ends with the mutex held", fn)
+		}
+		if !p.open && p.sticky {
+			a.fail("%s: a path ends with a deferred unlock of a mutex it no longer holds", fn)
 		}
 		q := p.clone()
 		q.open, q.sticky, q.done = false, false, false
